@@ -23,7 +23,7 @@ let () =
       let base = max timeout 250 in
       (* expected status per token from the name prefix *)
       let expected = List.filter_map (fun st -> match split_on ':' st with
-        | ["q"; tk; name] ->
+        | ["q"; tk; name] | ["qs"; tk; name; _] ->
           let s = if starts_with "ans" name then 0 else if starts_with "sil" name then 12 else if starts_with "srvfail" name then 3 else -1 in
           Some (int_of_string tk, s)
         | _ -> None) (split_on ';' body) in
@@ -33,6 +33,7 @@ let () =
         | ["T"; t; "query"; _; _] -> Some (TQuery (z_of_int (int_of_string t)))
         | ["T"; t; "wake"; _; _] -> Some (TWakeSig (z_of_int (int_of_string t)))
         | ["T"; t; "woke"; _; _] -> Some (TWoke (z_of_int (int_of_string t)))
+        | ["T"; _; "hint"; sec; usec] -> Some (THint (z_of_int (int_of_string sec), z_of_int (int_of_string usec)))
         | ["T"; t; "wait"; ms; has] -> Some (TWait (z_of_int (int_of_string t), if has = "0" then None else Some (z_of_int (int_of_string ms))))
         | _ -> None) lines in
       let rl = List.filter (fun l -> starts_with "R " l) lines in
@@ -60,6 +61,13 @@ let () =
                  | _ -> ())
               | _ -> ())
            | _ -> ()) toks;
+         if tevs <> [] && not (trace_conversion_ok tevs) then begin
+           (* which half failed: an unusable timeout (0 = wait forever / above INT_MAX) is a property
+              failure, a usable but different value is a disagreement with the model *)
+           let bad = List.exists (function TWait (_, ms) -> not (wait_ms_ok ms) | _ -> false) tevs in
+           if bad then Printf.printf "FAIL %d evthread-unusable-timeout the event thread waited with timeout 0 (= no timeout) or above INT_MAX while ares_timeout() reported a pending deadline\n" k
+           else Printf.printf "DIFF %d event-thread wait timeout is not ms_of_hint of the logged hint\n" k
+         end;
          if tevs <> [] && not (trace_accepts (z_of_int base) (z_of_int 150) tevs) then
            Printf.printf "FAIL %d evthread-no-wake hook trace rejected by the extracted acceptor (a query was enqueued while the event thread slept past its deadline and no wake followed)\n" k
        | _ -> if not (List.exists (fun l -> starts_with "MONITOR" l) lines) then Printf.printf "DIFF %d no result line\n" k)) cases
